@@ -4,8 +4,8 @@ R12-a  publish after completion: a memo entry that a later call serves as *the* 
        only when the producing loop ran to exhaustion (no store from which a `yield` is still
        reachable, no store on a generator-abandonment path), and only Parser writes the memo.
 R12-b  served trees share nothing with the memo: no definition of a tree variable reaches both
-       a memo store and a `yield` (collapse() results count as aliases of their argument,
-       because _collapse hands list-valued fields on by reference).
+       a memo store and a `yield` (whether collapse() results alias their argument is derived from
+       the effect summary of IterativeParser.collapse and from list arguments it passes by reference).
 R12-c  per-parse state is reset: every attribute of IterativeParser written while consuming
        input is re-initialised by new_parse (frozen, reasoned exceptions).
 R12-d  hit path and miss path of the memo serve trees under the same conditions on the
@@ -174,6 +174,28 @@ def run(chk: Check, eng: Engine) -> None:
             memo_defs.add((d, nm))
 
     FRESH_CALLS = {"deepcopy"}
+    # does collapse() hand out something that shares structure with its argument?
+    from ..effects import EffectAnalysis, base_of
+
+    ea = EffectAnalysis(eng)
+    ipc = eng.cls(f"{PMOD}.iterative_parser", "IterativeParser")
+    collapse_alias: list[str] = []
+    for mname in ("collapse", "_collapse"):
+        m = ipc.lookup(mname)
+        if m is None:
+            continue
+        sm = ea.summary(m, ipc)
+        regs = {r for r in sm.ret.B if base_of(r).startswith("p:")} | {r for (_, r) in sm.ret.R if base_of(r).startswith("p:")}
+        if regs:
+            collapse_alias.append(f"{mname}() returns an object in / linked to {sorted(regs)}")
+        tparams = [p_ for p_ in m.params() if p_ != "self"]
+        for c in walk_local(m.node):
+            if isinstance(c, ast.Call) and call_name(c) in ("DerivationTree", "ParserDerivationTree", "SliceTree"):
+                for kw in c.keywords:
+                    if kw.arg in ("sources", "origin_repetitions", "children") and isinstance(kw.value, ast.Attribute) \
+                            and isinstance(kw.value.value, ast.Name) and kw.value.value.id in tparams:
+                        collapse_alias.append(f"{mname}() passes `{kw.arg}={short(kw.value)}` by reference")
+    collapse_is_fresh = not collapse_alias
 
     def origin_defs(node: int, e: ast.AST, depth: int = 0) -> set[tuple[int, str]]:
         """Definitions whose object may be (part of) the value of expression e at `node`."""
@@ -187,14 +209,14 @@ def run(chk: Check, eng: Engine) -> None:
                 if v is not None and not isinstance(v, ast.AugAssign):
                     if isinstance(v, ast.Call) and call_name(v) in FRESH_CALLS:
                         continue
-                    if isinstance(v, ast.Call) and call_name(v) in ("collapse", "_collapse"):
+                    if isinstance(v, ast.Call) and call_name(v) in ("collapse", "_collapse") and not collapse_is_fresh:
                         for a in v.args:
                             out |= origin_defs(d, a, depth + 1)
             return out
         if isinstance(e, ast.Call):
             if call_name(e) in FRESH_CALLS:
                 return out
-            if call_name(e) in ("collapse", "_collapse"):
+            if call_name(e) in ("collapse", "_collapse") and not collapse_is_fresh:
                 for a in e.args:
                     out |= origin_defs(node, a, depth + 1)
             return out
@@ -212,14 +234,18 @@ def run(chk: Check, eng: Engine) -> None:
             d, nm = sorted(shared)[0]
             dn = cfg.nodes[d]
             via = "collapse() of " if not (isinstance(val, ast.Name) and (d, val.id) in memo_defs) else ""
-            chk.bad("R12-b", file, y.line, pf.fq, f"`{y.text()}` hands out {via}the object defined at `{dn.text()}` which is also kept in the memo",
+            chk.bad("R12-b", file, y.line, pf.fq, f"`{y.text()}` hands out {via}the object defined at `{dn.text()}` which is also kept in the memo"
+                    + (f" [{'; '.join(collapse_alias)}]" if via else ""),
                     "the caller (fuzz-internal repair, populate_sources, user code) mutates a structure the memo still references, so later "
                     "parses of the same input return altered trees",
                     keyparts=f"shared|{'collapse' if via else 'direct'}|{short(dn.ast, 50) if dn.ast is not None else ''}")
         else:
-            chk.ok("R12-b", pf.fq, y.line, f"`{y.text()}`: value originates from a copy, not from a memo-resident object")
+            chk.ok("R12-b", pf.fq, y.line, f"`{y.text()}`: value originates from a copy, not from a memo-resident object"
+                   + (" (collapse() builds a tree that shares nothing with its argument)" if collapse_is_fresh else ""))
     if n_y == 0:
         raise AnalysisError("Parser.parse_forest: no value-yield found")
+    chk.ok("R12-b", f"{PMOD}.iterative_parser:IterativeParser._collapse", 0,
+           "collapse() result is FRESH w.r.t. its argument" if collapse_is_fresh else "collapse() result aliases its argument: " + "; ".join(collapse_alias))
 
     # R12-d -----------------------------------------------------------------
     bool_params = []
